@@ -231,6 +231,8 @@ def equal(case, a, b):
     docs = new_docs(case)
     if a.get("len") != len(docs):
         return False
+    if len(a["q"]) != len(case["queries"]) or len(b["q"]) != len(case["queries"]):
+        return False                      # one answer per query on both sides
     for q, x, y in zip(case["queries"], a["q"], b["q"]):
         if q[0] == "phrase" and b.get("spec"):
             if not c03._phrase_ok(x, y):
@@ -247,6 +249,8 @@ def equal(case, a, b):
         n = len(docs)
         total = sum(len(d) for d in docs)
         voc = sorted({t for s in case["sources"] for d in s["docs"] for t in d})[:3]
+        if len(a["stats"]) != len(voc) + 1:
+            return False
         for t, st in zip(voc, a["stats"]):
             df = sum(1 for d in docs if t in d)
             if st[0] != df:
